@@ -6,7 +6,20 @@
        as the fuelled model Model/WaitModel.v -- over every finite graph of deferred objects, cyclic or not;
    (2) the Python partial operations reachable from input, under the guards the code has now (Model/Partial.v).
 
-   Only statements, each closed by [exact] of a lemma from Proofs/, then Print Assumptions. *)
+   Only statements, each closed by [exact] of a lemma from Proofs/, then Print Assumptions.
+
+   NOT CLAIMED here (explored by tools/props/c08.py, never proved):
+     * "no source text crashes / hangs / fails silently": there is no model of the parser, of compile_block, of the
+       instruction and directive compilers as a whole, of LinearPolynomial/Concatenator arithmetic, of the report
+       handlers or of the command line; C08_no_crash_partial below is only about the listed operations, each taken
+       in isolation with the guard that surrounds it in the source (pinned by tools/gens/gen_partial.py);
+     * that the graphs of deferred objects a real program builds are finite and closed (the theorems about wait()
+       hold for every finite graph, but that programs only build such graphs is not proved);
+     * Python's recursion limit: the model's recursion is bounded by fuel only, CPython's by ~1000 frames; e.g. a chain
+       of 1000 definitions 'x_k = x_{k-1} + 1' written in reverse order dies with RecursionError in the real code --
+       outside G by the stated resource bounds, and invisible to these theorems;
+     * memory and time: C08_wait_terminates bounds the number of steps of the loop, not the cost of a step
+       (integer sizes, polynomial substitution), cf. the exponential non-additive rings found by the exploration. *)
 From Coq Require Import String List ZArith NArith Bool.
 From Verif Require Import Base.Res Base.Bytes Gen.GenGetAsInt Gen.GenMeta Gen.GenPartial Model.WaitModel Proofs.WaitP Model.Partial Proofs.PartialP.
 From Verif Require Gen.GenOperators.
@@ -63,11 +76,13 @@ Print Assumptions C08_value_unique.
    (through dependencies or yielded objects), or when a chain of yielded objects is at least `bound` long
    (the `len(seen) >= N1` clause; N1 = Gen.GenPartial.wait_seen_bound), or when such a chain contains at least
    `bound2` steps in which a LinearPolynomial yields a LinearPolynomial (the `polynomial_steps >= N2` clause;
-   N2 = wait_poly_bound; the code counts all such steps of the chain, consecutive or not, and so does long_poly). *)
+   N2 = wait_poly_bound; the code counts all such steps of the chain, consecutive or not, and so does long_poly).
+   Both chains are rooted: they start at the node i that is waited for or at a node reachable from i (a
+   dependency evaluated on the way) -- a long chain elsewhere in the graph cannot justify the exception. *)
 Theorem C08_cycle_reported_only_for_cycles :
   forall (G : graph) (bound bound2 : nat) (isp : nat -> bool) (spec : bool) (fuel : nat) (i : nat) (st' : state),
     wait bound bound2 isp spec G fuel (init_state G) i = RRaise ECycle st' ->
-    reaches_cycle G i \/ long_forward G bound \/ long_poly G isp bound2.
+    reaches_cycle G i \/ long_forward G i bound \/ long_poly G isp i bound2.
 Proof. exact cycle_sound. Qed.
 Print Assumptions C08_cycle_reported_only_for_cycles.
 
@@ -126,7 +141,8 @@ Example C08_example_mutual_cycle :
 Proof. vm_compute. exact I. Qed.
 
 (* ---- (2) Python partial operations under the guards the code has now -------------------------------------- *)
-(* C08_no_crash_partial: "partial" because it lists the raising operations of the *modelled* sites (those that take
+(* The per-operation theorems below are summarised as C08_no_crash_partial at the end of this section:
+   "partial" because they list the raising operations of the *modelled* sites (those that take
    a value computed from the input), not of the whole program; what is missing is the parser's and the statement
    compiler's control flow around them (explored, not proved).  Every statement is over unbounded Z / lists of any
    length; the bodies of the operators, of .align/.even/.odd and of get_as_int are the regenerated Gen definitions. *)
@@ -222,6 +238,33 @@ Theorem C08_pattern_letter_lookup_no_crash :
     (In c acc_stub_chars -> dict_lookup acc_stub_keys c <> Crash s).
 Proof. exact (fun c s => conj (reg_lookup_no_crash c s) (acc_lookup_no_crash c s)). Qed.
 Print Assumptions C08_pattern_letter_lookup_no_crash.
+
+(* the family in one statement.  PARTIAL: it says that none of the *modelled, guarded* partial operations can raise,
+   not that no input crashes the assembler (see NOT CLAIMED at the top of this file) *)
+Theorem C08_no_crash_partial :
+  (forall addr count s, body_align addr count <> Crash s) /\
+  (forall addr s, body_even addr <> Crash s /\ body_odd addr <> Crash s) /\
+  (forall a b s, GenOperators.body_div a b <> Crash s /\ GenOperators.body_mod a b <> Crash s /\
+                 GenOperators.body_lshift a b <> Crash s /\ GenOperators.body_rshift a b <> Crash s /\
+                 GenOperators.body_lsh a b <> Crash s) /\
+  (forall v s, pack_word v <> Crash s /\ pack_byte v <> Crash s /\ pack_dword v <> Crash s /\
+               ascii_chunk v <> Crash s /\ pack_relative v <> Crash s) /\
+  (forall code s, site_chr code <> Crash s) /\
+  (forall (u : list N) s, site_rad50_char u <> Crash s) /\
+  (forall (chars : list N) s, Forall (fun c => nmem c rad50_literal_class = true) chars -> rad50_literal chars <> Crash s) /\
+  (forall prefix cls base (digits : list N) s,
+     In (prefix, cls, base) radix_classes -> digits <> [] -> Forall (fun c => In c cls) digits -> py_int digits base <> Crash s) /\
+  (forall num s, (decimal_guard num = true -> site_bare_decimal num <> Crash s) /\
+                 (octal_guard num = true -> site_bare_octal num <> Crash s)) /\
+  (forall digits base s, site_c_style digits base <> Crash s) /\
+  (forall c s, (In c reg_stub_chars -> dict_lookup reg_stub_keys c <> Crash s) /\
+               (In c acc_stub_chars -> dict_lookup acc_stub_keys c <> Crash s)).
+Proof.
+  exact (conj C08_align_no_crash (conj C08_even_odd_no_crash (conj C08_operators_no_crash (conj C08_pack_no_crash
+        (conj C08_chr_no_crash (conj C08_rad50_char_no_crash (conj C08_rad50_literal_no_crash (conj C08_prefixed_number_no_crash
+        (conj C08_bare_number_no_crash (conj C08_c_style_number_no_crash C08_pattern_letter_lookup_no_crash)))))))))).
+Qed.
+Print Assumptions C08_no_crash_partial.
 
 (* the guards are not vacuous, and without them the operations do raise in the model *)
 Example C08_align_zero_reported : body_align 5 0 = Err ["value-out-of-bounds"%string].
